@@ -34,13 +34,15 @@ Extend(op) ==
   /\ prog # <<>> /\ Len(prog) < Depth /\ st.status = "ok"
   /\ \E i \in Idx(Steps) :
        /\ Steps[i].op = op
+       \* a step may be restricted to given positions of the pipeline ("slot" models)
+       /\ (Steps[i].at = <<>> \/ \E j \in Idx(Steps[i].at) : Steps[i].at[j] = Len(prog) + 1)
        /\ st' = ApplyStep(st, Steps[i], Dbs, Schema)
        /\ prog' = Append(prog, Steps[i])
 
 Next == \/ \E i \in Idx(Firsts) : Start(i)
         \/ Extend("select") \/ Extend("derive") \/ Extend("filter") \/ Extend("sort")
         \/ Extend("take") \/ Extend("aggregate") \/ Extend("group") \/ Extend("window")
-        \/ Extend("join") \/ Extend("append")
+        \/ Extend("join") \/ Extend("append") \/ Extend("bad")
 
 Spec == Init /\ [][Next]_vars
 
